@@ -15,7 +15,8 @@ META = dict(
            "system are the momentum balance and -g_dot(t_{n+1}, q_{n+1}, u_{n+1}).  ScipyIVP also with a motor and a compliance-form spring on a revolute joint "
            "(concrete configuration, symbolic velocity / torque / stiffness).  DualStormerVerlet: the real _step (LU variant) on a point mass with a distance constraint "
            "to a MOVING anchor, the two fixed-point helpers replaced by their contract (C22): at a fixed point the rows of the step's last linear system are the "
-           "momentum balance with the stored percussion and (2/dt) g(t_{n+1}, q_{n+1}).  Outside: ScipyDAE drift (third-party integrator), DualStormerVerlet's MINRES variants "
+           "momentum balance with the stored percussion and (2/dt) g(t_{n+1}, q_{n+1}).  ScipyDAE / ScipyIVP: tolerances, output grid and initial state are forwarded to the third-party integrator (whose accuracy is trusted).  "
+           "Stored step 0: assembly normalises the initial quaternion with and without the initial-condition solve.  Outside: ScipyDAE drift (third-party integrator), DualStormerVerlet's MINRES variants "
            "(third-party iterative solver), accumulated error over many steps.",
     assumptions=["LU contract: the stubbed linear solve returns x with A x = b (the single trusted implication)", "quaternions nonzero, dt > 0"],
     trusted_base=["LU contract", "Cramer inverse for the ScipyIVP case (nu <= 3)"],
@@ -282,6 +283,66 @@ def dsv_step(h, which="distance", seed=0):
         h.eq("momentum rows of the step's linear system at its fixed point = momentum balance with the stored percussion", bal, np.zeros(nu), tol=scale)
 
 
+def scipy_forwarding(h, solver="ScipyDAE", seed=0):
+    """the wrappers hand the requested tolerances, output grid, initial state and residual / right-hand side to the third-party integrator
+    (whose accuracy contract - constraints at the order of the requested tolerance - is the trusted part)"""
+    import importlib
+    sysm, b, j = build(h, "distance", seed)
+    mod = importlib.import_module("cardillo.solver." + ("scipy_dae" if solver == "ScipyDAE" else "scipy_ivp"))
+    rtol, atol = h.pos("rtol"), h.pos("atol")
+    seen = {}
+
+    class _Stop(Exception):
+        pass
+
+    def integrator(fun, t_span, y0, *a, **kw):
+        seen.update(kw, fun=fun, t_span=t_span, y0=y0, extra=a)
+        raise _Stop()
+    name = "solve_dae" if solver == "ScipyDAE" else "solve_ivp"
+    real = getattr(mod, name)
+    setattr(mod, name, integrator)
+    try:
+        with h.capture():
+            S = getattr(mod, solver)(sysm, 0.5, 0.125, rtol=rtol, atol=atol)
+            try:
+                S.solve()
+            except _Stop:
+                pass
+    finally:
+        setattr(mod, name, real)
+    h.holds(f"{solver}: the integrator is called", bool(seen))
+    if not seen:
+        return
+    h.holds(f"{solver}: requested absolute tolerance forwarded", seen.get("atol") is atol)
+    h.holds(f"{solver}: requested relative tolerance forwarded", seen.get("rtol") is rtol)
+    te = np.asarray(seen.get("t_eval"), dtype=float)
+    h.holds(f"{solver}: output grid forwarded", te.shape == np.asarray(S.t_eval).shape and bool(np.all(te == np.asarray(S.t_eval, dtype=float))))
+    h.holds(f"{solver}: integration span = first and last output time", float(seen["t_span"][0]) == float(S.t_eval[0]) and float(seen["t_span"][-1]) == float(S.t_eval[-1]))
+    y0 = np.asarray(seen["y0"], dtype=float)
+    h.holds(f"{solver}: initial state = (q0, u0, ...)", bool(np.all(y0[:sysm.nq] == np.asarray(sysm.q0, dtype=float)) and np.all(y0[sysm.nq:sysm.nq + sysm.nu] == np.asarray(sysm.u0, dtype=float))))
+
+
+def initial_normalisation(h, consistent=False, seed=0):
+    """stored step 0: the assembled initial state carries unit quaternions also when the initial-condition solve is switched off"""
+    from cardillo import System
+    from cardillo.discrete import RigidBody
+    from cardillo.forces import Force
+    from cardillo.solver import SolverOptions
+    P = h.quat("P0")
+    b = RigidBody(1.5, np.diag([1.0, 2.0, 3.0]), q0=np.concatenate([h.vec("r0", 3), P]), u0=np.zeros(6), name="b")
+    sysm = System()
+    sysm.add(b, Force(np.array([0.0, 0.0, -1.0]), b))
+    if h.sym:
+        from symx import shims
+        shims.LU_MODE[0] = "cramer"
+    with h.capture():
+        sysm.assemble(options=SolverOptions(compute_consistent_initial_conditions=consistent))
+    h.eq("assembled initial state has a unit quaternion", sysm.g_S(sysm.t0, sysm.q0), np.zeros(sysm.nla_S))
+    n2 = P @ P
+    Pn = sysm.q0[3:7]
+    h.eq("assembled initial quaternion is the given one, normalised", Pn * Pn * n2, P * P)
+
+
 def callback(h, which="revolute", seed=0):
     sysm, b, j = build(h, which, seed)
     t, q, u = _state(h, sysm, b)
@@ -349,6 +410,10 @@ def cases(tier, seed):
     for which in (("distance",) if tier == "quick" else ("distance", "spherical")):
         cs.append(Case(f"rattle_stage2/{which}", rattle_stage2, dict(which=which, seed=seed), timeout=T, hard=T * 8, max_paths=16))
     cs.append(Case("dual_stormer_verlet_step/distance", dsv_step, dict(which="distance", seed=seed), timeout=T, hard=T * 8, max_paths=16))
+    for solver in ("ScipyDAE", "ScipyIVP"):
+        cs.append(Case(f"forwarding/{solver}", scipy_forwarding, dict(solver=solver, seed=seed), timeout=T, sentinel=False, crosscheck=False))
+    for consistent in (False, True):
+        cs.append(Case(f"initial_normalisation/consistent_ic={consistent}", initial_normalisation, dict(consistent=consistent, seed=seed), timeout=T, sentinel=False))
     cs.append(Case("scipy_ivp/distance", scipy_ivp, dict(seed=seed), timeout=T))
     cs.append(Case("scipy_ivp/revolute+actuator+compliance", scipy_ivp, dict(seed=seed, forces=True), timeout=T, hard=T * 8))
     return cs
